@@ -216,6 +216,30 @@ CHECKS["C19"] = dict(
     note=TRUST + "; the nested probe form of score() is outside the documented domain; lazily evaluated Dask parameters "
          "(WCCN/whitening on Dask input) are computed right after fit")
 
+CHECKS["C12"] = dict(
+    text="TLC checks specs/BagTrain.tla (the regrouping of a bag of labelled statistics into per-class lists transcribed as "
+         "written, for every composition into partitions incl. empty ones and every surjective labelling incl. unsorted; then "
+         "the ISV loop and the three JFA phases as a task graph with version tags, both memory modes, every order of the per-class "
+         "E-steps: ExactlyOncePerMStep, AllContribsAtCurrentVersion, HostFreshAfterIter, HandOverFresh) and specs/PairTree.tla "
+         "(the i-vector pairwise reduction loop with odd carry for lengths 1..64, copy-back of T and sigma, Terminates); five "
+         "deviations are refuted (one only in Isolated mode). fit(dask.bag, y) for ISV / JFA / i-vector is executed for the "
+         "exported partitionings, schedules and memory modes under the replaying scheduler and compared with the in-memory list "
+         "fit; the regrouping is also compared directly with TLC's per-class lists.",
+    ref="DESIGN.md section 5 (C12)",
+    technique="TLA+/TLC model checking of regrouping, task graph and reduction tree + replay under a replaying Dask scheduler",
+    note=TRUST + "; the thorough replay of the EM behaviours is a stratified sample of the exported schedules")
+CHECKS["C16"] = dict(
+    text="TLC checks specs/Determinism.tla: the global NumPy generator as an abstract token stream, each estimator's randomness "
+         "source as written (own seeded generator / reseed-global-then-draw / none), histories of perturbations and fits with "
+         "sample orders and class relabellings: ResultIsFunctionOfMultisetAndSeed, HistoryIndependent, "
+         "RandomnessComesFromOwnSeed, GlobalStreamEffectDocumented; five deviations are refuted. Sampled histories are executed "
+         "in one process on the real estimators (k-means, GMM, ISV, JFA from statistics and arrays, in-memory and Dask, WCCN): "
+         "every fit bitwise equal to a reference computed first, permuted samples and relabelled classes equal to 1e-8.",
+    ref="DESIGN.md section 5 (C16)",
+    technique="TLA+/TLC model checking of RNG-stream histories + replay of sampled histories against fresh references",
+    note=TRUST + "; sample-permutation invariance of k-means / GMM is demanded with explicit initial parameters only (a seeded "
+         "draw of sample indices is order dependent by construction)")
+
 PENDING = {}
 
 
